@@ -535,6 +535,18 @@ pub fn pose_any(s: &mut Src) -> Pose {
         let z = |s: &mut Src| F64(if s.chance(1, 4) { -0.0 } else { 0.0 });
         return Pose { rot: [F64(1.0), z(s), z(s), z(s)], trans: [z(s), z(s), z(s)] };
     }
+    if s.chance(1, 6) {
+        // almost the default pose: a tiny rotation about one axis (|w| within 1e-6 of 1, either sign) and no or a tiny
+        // translation; far from the origin the rotation still moves points visibly
+        let angle = *s.pick(&[2.0e-3f64, 1.0e-3, 1.0e-4, 3.0e-6, 1.0e-8]);
+        let sign = if s.flag() { 1.0 } else { -1.0 };
+        let (w, v) = (sign * (angle / 2.0).cos(), (angle / 2.0).sin());
+        let axis = s.below(3) as usize;
+        let mut rot = [F64(w), F64(0.0), F64(0.0), F64(0.0)];
+        rot[1 + axis] = F64(v);
+        let t = |s: &mut Src| F64(*s.pick(&[0.0f64, 0.0, 1.0e-7, -1.0e-9, 1.0e-3]));
+        return Pose { rot, trans: [t(s), t(s), t(s)] };
+    }
     if s.flag() {
         let q = unit_quat(s);
         Pose { rot: [F64(q[0]), F64(q[1]), F64(q[2]), F64(q[3])], trans: [F64(f64_finite(s)), F64(f64_finite(s)), F64(f64_finite(s))] }
@@ -608,6 +620,19 @@ impl std::io::Read for Trickle<'_> {
         Ok(n)
     }
 }
+/// A source that hands out its data (in short reads if asked to) and then reports an error instead of the end.
+pub struct FailingSource<'a> {
+    pub inner: Trickle<'a>,
+}
+impl std::io::Read for FailingSource<'_> {
+    fn read(&mut self, buf: &mut [u8]) -> std::io::Result<usize> {
+        if self.inner.data.is_empty() {
+            return Err(std::io::Error::new(std::io::ErrorKind::Other, "source failed"));
+        }
+        self.inner.read(buf)
+    }
+}
+
 /// A legal `Write` target with limited room: accepts `cap` bytes in total, then reports an error
 /// (mode 0), reports that nothing more can be written (mode 1, Ok(0)), or, in mode 2, first
 /// accepts short writes and then fails. `got` is everything the target really received.
